@@ -75,7 +75,7 @@ FuncCalls == << "substr(name, 6, 3)", "substr(name, 40)", "substr(name, -30, 2)"
                 "abs()", "abs(x)", "power()", "power(2)", "power(2, 99999)", "power(0, -1)", "sqrt(-1)", "sqrt()", "log(0)", "log(-1)",
                 "log(8, 0)", "log(8, x)", "ln(0)", "exp(99999)", "least()", "greatest(x, y)", "format_time(-1)", "format_time()",
                 "format_time(99999999999999999999)", "format_size(x)", "format_size(1, x)", "format_size(1, '%.99')", "format_size(size, '%.2 zz')", "format_size(size, '%.99999999999 k')",
-                "format_size(size, '%.4294967296')", "format_size(99999999999999999999, '%.1')", "substr(name, 1, 99999999999999999999)", "rand(99999999999999999999)",
+                "format_size(size, '%.4294967296')", "format_size(size, '%.70000k')", "format_size(size, '%.65536')", "format_size(size, '%.300 d')", "format_size(99999999999999999999, '%.1')", "substr(name, 1, 99999999999999999999)", "rand(99999999999999999999)",
                 "power(99999999999999999999, 2)", "year(99999999999999999999)", "lower(name", "concat(name, 'a'", "substr(name, 1,",
                 "year()", "year(0)", "month(size)", "day('31')", "dow('x y z')", "year('2017-02-30')", "day('0000-00-00')",
                 "size % 0", "7 % (3 - 3)", "10 % size", "size mod 0", "1 / 0", "size / (size - size)", "0 % 0", "hardlinks % (hardlinks - 1)",
@@ -117,6 +117,7 @@ ChooseFunc == /\ phase = "start" /\ "reject" \in Kinds /\ kind' = "function" /\ 
 Totals == << "select name from . order by sqrt(size - 50)", "select name from . order by 0 * size / 0, name", "select name from . order by ln(0 - size) desc",
              "select name, size / 0 from . order by size / 0", "select count(*) from . group by sqrt(size - 50)", "select name from . where sqrt(0 - size) > 1",
              "select max(sqrt(size - 50)), min(ln(0 - size)), avg(size / 0) from .", "select name from . order by size / 0 limit 1",
+             "select name from 'sub/[' depth 1 rx", "select name from '[a' maxdepth 2 regexp", "select name from 's*(' depth 1 rx",
              "select name from . order by -{size + 1}", "select -{size + 1}, +{size} from .", "select name from . where size > -{1 - 3}" >>
 ChooseTotal == /\ phase = "start" /\ "reject" \in Kinds /\ kind' = "query" /\ phase' = "done"
                /\ \E i \in 1 .. Len(Totals) : argv' = <<Totals[i]>> /\ label' = "q" \o ToString(i)
